@@ -64,7 +64,8 @@ fn main() {
         _ => Tier::Quick,
     };
     let mut ctx = Ctx::new(&id, tier);
-    let (level, cov, assumptions) = match id.as_str() {
+    // a panic inside the check's own code is a machinery error (exit 2), never a verdict
+    let run = std::panic::catch_unwind(std::panic::AssertUnwindSafe(|| match id.as_str() {
         "C01" | "C02" | "C03" | "C18" => props::uni::run(&id, &mut ctx),
         "C04" | "C05" => props::ros::run(&id, &mut ctx),
         "C06" => props::c06::run(&mut ctx),
@@ -82,6 +83,13 @@ fn main() {
         "C19" => props::c1719::run_c19(&mut ctx),
         "C20" => props::c20::run(&mut ctx),
         _ => machinery_error(&format!("unknown property {id}")),
+    }));
+    let (level, cov, assumptions) = match run {
+        Ok(x) => x,
+        Err(e) => {
+            let msg = e.downcast_ref::<String>().cloned().or_else(|| e.downcast_ref::<&str>().map(|s| s.to_string())).unwrap_or_default();
+            machinery_error(&format!("the check's own code panicked: {msg}"))
+        }
     };
     std::process::exit(ctx.finish(&level, cov, assumptions));
 }
